@@ -155,11 +155,19 @@ def _retry(ctx: Ctx, ro: FuncInfo) -> None:
     t, nm, inc, init, k = cand
     i0 = ctx.repo.const(ro.module, init.ast.value)
     step_ok = True
-    # (a) every path head -> exit-test passes the increment
-    a_ok = not cfg.can_reach_avoiding(head, t, lambda n: n is inc)
-    # (b) every path head -> head (next round) passes the test ...
+    # the increment sits on every path head -> exit test (counted before
+    # the test) or on every path from the test's False outcome back to the
+    # head (counted after it)
+    before = not cfg.can_reach_avoiding(head, t, lambda n: n is inc)
     back = [p for p, _ in head.pred if head in cfg.reachable(head)
             and p in cfg.reachable(head)]
+    false_succ = [m for m, lb in t.succ if lb is False]
+    after = bool(false_succ) and all(
+        not cfg.can_reach_avoiding(m, head, lambda n: n is inc)
+        or m is inc for m in false_succ) and \
+        not cfg.can_reach_avoiding(head, inc, lambda n: n is t)
+    a_ok = before or after
+    # (b) every path head -> head (next round) passes the test ...
     b_ok = bool(back) and all(
         not cfg.can_reach_avoiding(head, p, lambda n: n is t)
         or p is t for p in back)
@@ -167,53 +175,94 @@ def _retry(ctx: Ctx, ro: FuncInfo) -> None:
     true_succ = [m for m, lb in t.succ if lb is True]
     c_ok = all(not any(cfg.can_reach_avoiding(m, p, lambda n: n is head)
                        for p in back) for m in true_succ)
-    inc_once = not cfg.can_reach_avoiding(
-        inc, inc, lambda n: n is head) or True
-    bound = (k - i0 + 1) if isinstance(k, int) and isinstance(
-        i0, int) else None
+    # rounds: the r-th test sees i0 + r (counted before) or i0 + r - 1
+    # (counted after); the loop is left as soon as that exceeds k
+    bound = None
+    if isinstance(k, int) and isinstance(i0, int):
+        bound = (k - i0 + 1) if before else ((k - i0 + 2) if after else None)
     ok = step_ok and a_ok and b_ok and c_ok and bound is not None and \
-        bound <= 5 and inc_once
+        bound <= 5
     ctx.ob("D10.1", ro, t.ast, ok,
            f"`{nm}` starts at {i0}, is incremented by 1 exactly once per "
-           f"round before `{ast.unparse(t.ast)}`, and a new round starts "
+           f"round {'before' if before else 'after'} "
+           f"`{ast.unparse(t.ast)}`, and a new round starts "
            f"only when that test is False: at most {bound} integration "
            "cycles" if ok else
            f"the number of integration cycles is not bounded by 5: "
-           f"step_ok={step_ok}, increment-before-test={a_ok}, "
+           f"step_ok={step_ok}, increment-once-per-round={a_ok}, "
            f"repeat-only-through-test={b_ok and c_ok}, bound={bound}",
            construct="retry bound")
 
 
 # ------------------------------------------------------------------ D10.2
 def _is_ok_rule(ctx: Ctx) -> None:
+    """_is_ok(x) is True iff every value lies strictly inside (-1e10,
+    1e10); NaN fails.  Decided on the paths through one round of the loop
+    over the values (locals inlined): the outcome for sample values at,
+    next to and between the limits and for NaN (all of whose comparisons
+    are False) must be `return False` exactly outside the open interval."""
+    from sa.checks.c20 import _truth
+    from sa.pathinline import paths
     repo = ctx.repo
     fi = repo.func(MOD, "_is_ok")
-    loop = next((s for s in func_body(fi) if isinstance(s, ast.For)), None)
+    body = func_body(fi)
+    loop = next((s for s in body if isinstance(s, ast.For)), None)
     ok = False
+    why = "no loop over the values of the vector"
     if loop is not None and isinstance(loop.target, ast.Name) and \
-            ast.unparse(loop.iter) == fi.params[0]:
+            ast.unparse(loop.iter) == fi.params[0] and not loop.orelse:
         v = loop.target.id
-        for s in loop.body:
-            if isinstance(s, ast.If) and isinstance(
-                    s.test, ast.UnaryOp) and isinstance(
-                    s.test.op, ast.Not) and isinstance(
-                    s.test.operand, ast.Compare) and isinstance(
-                    s.body[0], ast.Return) and repo.const(
-                    fi.module, s.body[0].value) is False:
-                c = s.test.operand
-                if len(c.ops) == 2 and all(isinstance(o, ast.Lt)
-                                           for o in c.ops):
-                    lo = repo.const(fi.module, c.left)
-                    mid = ast.unparse(c.comparators[0])
-                    hi = repo.const(fi.module, c.comparators[1])
-                    ok = lo == -1e10 and hi == 1e10 and mid == v
-        last = func_body(fi)[-1]
-        ok = ok and isinstance(last, ast.Return) and repo.const(
-            fi.module, last.value) is True
+        why = ""
+        try:
+            ps = paths(list(loop.body))
+        except ValueError:
+            ps = []
+            why = "loop body not understood"
+        big = 1e10
+        samples = [(-2 * big, False), (-big, False),
+                   (-big * (1 - 1e-12), True), (0.0, True), (1.5, True),
+                   (big * (1 - 1e-12), True), (big, False), (2 * big, False),
+                   (float("nan"), False), (float("inf"), False),
+                   (float("-inf"), False)]
+        for val, want in samples:
+            taken = []
+            for p_ in ps:
+                tv = [(_truth(inline_locals(fi.node, t), v, val), truth)
+                      for t, truth in p_.guards]
+                if any(x is None for x, _ in tv):
+                    why = why or "a test on the value is not understood"
+                    taken = None
+                    break
+                if all(x == truth for x, truth in tv):
+                    taken.append(p_)
+            if taken is None:
+                break
+            if len(taken) != 1:
+                why = why or "the tests on a value are not exhaustive"
+                break
+            p_ = taken[0]
+            rejects = p_.ended == "return" and any(
+                e.kind == "return" and e.value is not None and repo.const(
+                    fi.module, e.value) is False for e in p_.events)
+            passes = p_.ended in (None, "continue") and not any(
+                e.kind in ("return", "raise") for e in p_.events)
+            if want and not passes:
+                why = why or f"the value {val!r} is rejected"
+                break
+            if not want and not rejects:
+                why = why or f"the value {val!r} is accepted"
+                break
+        last = body[-1]
+        if not why and not (isinstance(last, ast.Return) and repo.const(
+                fi.module, last.value) is True and body.index(
+                loop) == len(body) - 2):
+            why = "a vector of acceptable values is not reported as ok"
+        ok = not why
     ctx.ob("D10.2", fi, fi.node, ok,
            "_is_ok(x) is True iff every value satisfies -1e10 < v < 1e10 "
-           "(written positively, so NaN fails)" if ok else
-           "_is_ok does not test -1e10 < v < 1e10 for every value",
+           "(NaN and +-inf fail; decided on sample values at and around the "
+           "limits)" if ok else
+           f"_is_ok does not test -1e10 < v < 1e10 for every value: {why}",
            construct="_is_ok definition")
 
 
@@ -315,36 +364,45 @@ def _failure_row(ctx: Ctx, ro: FuncInfo) -> None:
                         ro.module, v) == w_
         ok = shape_ok and vals_ok and not [
             e for e in q.events if e.kind in ("loop", "other", "expr")]
-    dimn = None
     ctx.ob("D10.4", ro, tail[0] if tail else ro.node, ok,
            "failure result: one row (start state, controls 1e100, time 0)"
            if ok else f"failure row is built as {src}",
            construct="failure row")
-    for s_ in body:
-        if isinstance(s_, (ast.Assign, ast.AnnAssign)) and \
-                s_.value is not None:
+    # ---- the multi-row result: np.zeros((steps, n + controller_dim + 1))
+    # with the time column linspace(0, max_time, steps) - by value
+    steps_nm, mt_nm = ro.params[5], ro.params[6]
+    want_w = n_ + cd_ + Poly.const(1)
+    allocs = []
+    for s_ in ast.walk(ro.node):
+        if isinstance(s_, (ast.Assign, ast.AnnAssign)) and isinstance(
+                getattr(s_, "value", None), ast.Call) and ast.unparse(
+                s_.value.func) == "np.zeros" and len(
+                s_.value.args) == 1 and isinstance(
+                s_.value.args[0], ast.Tuple) and len(
+                s_.value.args[0].elts) == 2:
+            r_, c_ = s_.value.args[0].elts
             tg = s_.targets[0] if isinstance(s_, ast.Assign) else s_.target
             try:
-                if isinstance(tg, ast.Name) and ev.num(
-                        env, ast.parse(ast.unparse(inline_locals(
-                            ro.node, s_.value)), mode="eval").body) == \
-                        n_ + cd_ + Poly.const(1):
-                    dimn = tg.id
+                wv = ev.num(env, ast.parse(ast.unparse(inline_locals(
+                    ro.node, c_)), mode="eval").body)
             except Unsupported:
                 continue
-    dim_ok = dimn is not None
-    steps_nm, mt_nm = ro.params[5], ro.params[6]
+            if isinstance(tg, ast.Name) and isinstance(
+                    r_, ast.Name) and r_.id == steps_nm and wv == want_w:
+                allocs.append(tg.id)
     lin = [s for s in ast.walk(ro.node) if isinstance(s, ast.Assign)
+           and len(allocs) == 1
            and ast.unparse(s.targets[0]).replace(" ", "") ==
-           f"{res}[:,-1]"]
-    ok_l = len(lin) == 1 and ast.unparse(lin[0].value).replace(
-        " ", "") == f"np.linspace(0.0,{mt_nm},{steps_nm})"
-    alloc = [s for s in ast.walk(ro.node) if isinstance(
-        s, (ast.Assign, ast.AnnAssign)) and s.value is not None
-        and ast.unparse(s.value).replace(" ", "") ==
-        f"np.zeros(({steps_nm},{dimn}))"]
+           f"{allocs[0]}[:,-1]"]
+    ok_l = len(lin) == 1 and isinstance(
+        lin[0].value, ast.Call) and ast.unparse(
+        lin[0].value.func) == "np.linspace" and len(
+        lin[0].value.args) == 3 and not lin[0].value.keywords and \
+        ctx.repo.const(ro.module, lin[0].value.args[0]) == 0 and \
+        ast.unparse(lin[0].value.args[1]) == mt_nm and ast.unparse(
+            lin[0].value.args[2]) == steps_nm
     ctx.ob("D10.4", ro, lin[0] if lin else ro.node,
-           ok_l and dim_ok and len(alloc) == 1,
+           bool(ok_l and len(allocs) == 1),
            "a successful result has `steps` rows of n + controller_dim + 1 "
            "cells, the last column being linspace(0, max_time, steps)",
            construct="time column and shape")
